@@ -17,6 +17,7 @@ import (
 	"context"
 	"io"
 	"net"
+	"time"
 
 	"github.com/honeytrap/honeytrap/director"
 	"github.com/honeytrap/honeytrap/event"
@@ -56,7 +57,9 @@ func (s *copyService) Handle(ctx context.Context, conn net.Conn) error {
 	// not the concrete connection type
 	switch conn.RemoteAddr().Network() {
 	case "udp":
-		defer s.c.Send(event.New(
+		// a relayed datagram has no end of connection to wait for: record it
+		// now, and give up waiting for further replies after the idle timeout
+		s.c.Send(event.New(
 			EventOptions,
 			event.Category("copy"),
 			event.Type("tcp"),
@@ -70,6 +73,8 @@ func (s *copyService) Handle(ctx context.Context, conn net.Conn) error {
 		}
 
 		defer conn2.Close()
+
+		conn2.SetDeadline(time.Now().Add(30 * time.Second))
 
 		go io.Copy(conn2, conn)
 		_, err = io.Copy(conn, conn2)
